@@ -49,7 +49,7 @@ func (c *ScriptedCache) Evict(t *api.TaskInfo, reason string) error {
 // scripted JobReady answer.
 type Recorder struct {
 	Share    map[int64]*api.Resource
-	Log      [][2]int64 // (1 = allocate / 0 = deallocate, task)
+	Log      [][4]int64 // (1 = allocate / 0 = deallocate, task, status key, node) as seen by the callback
 	ErrFor   map[int64]bool
 	JobReady bool
 }
@@ -71,7 +71,7 @@ func (p *recorderPlugin) OnSessionOpen(ssn *framework.Session) {
 			}
 			r.Share[j].Add(e.Task.Resreq)
 			id := ParseID(string(e.Task.UID))
-			r.Log = append(r.Log, [2]int64{1, id})
+			r.Log = append(r.Log, [4]int64{1, id, StatusKey(e.Task.Status), NodeRef(e.Task.NodeName)})
 			if r.ErrFor[id] {
 				e.Err = fmt.Errorf("scripted: allocate callback fails for t%d", id)
 			}
@@ -82,7 +82,7 @@ func (p *recorderPlugin) OnSessionOpen(ssn *framework.Session) {
 				r.Share[j] = api.EmptyResource()
 			}
 			r.Share[j].SubWithoutAssert(e.Task.Resreq)
-			r.Log = append(r.Log, [2]int64{0, ParseID(string(e.Task.UID))})
+			r.Log = append(r.Log, [4]int64{0, ParseID(string(e.Task.UID)), StatusKey(e.Task.Status), NodeRef(e.Task.NodeName)})
 		},
 	})
 	ssn.AddJobReadyFn(RecorderName, func(obj interface{}) bool { return r.JobReady })
@@ -135,6 +135,10 @@ func NewWorld(nodes []NodeSpec, jobs []JobSpec, tasks []TaskSpec) *World {
 		ji.Name, ji.Namespace = JobName(j.ID), "ns"
 		ji.Queue = api.QueueID(QueueName(j.Queue))
 		ji.MinAvailable = int32(j.Min)
+		for _, rm := range j.RoleMin {
+			ji.TaskMinAvailable[RoleName(rm[0])] = int32(rm[1])
+			ji.TaskMinAvailableTotal += int32(rm[1])
+		}
 		snap.Jobs[ji.UID] = ji
 	}
 	for _, t := range tasks {
